@@ -672,6 +672,8 @@ class OpsMixin:
         b = norm_int(b)
         if isinstance(a, Unknown) or isinstance(b, Unknown):
             return Unknown("binop on unknown (%s)" % (a.reason if isinstance(a, Unknown) else b.reason))
+        if isinstance(a, External) or isinstance(b, External):
+            return Unknown("arithmetic on a value from an external binding")
         if isinstance(a, SymAny) and op in ("<<", ">>", "&", "|", "^", "-", "//"):
             a = self.any_as_int(a)
         if isinstance(b, SymAny) and op in ("<<", ">>", "&", "|", "^", "-", "//"):
